@@ -3,6 +3,7 @@
 Read from the repository:
   * DataclassWrapper.__init__: the test that skips a field (`not field.init or field.metadata.get("cmd", True) is False`),
     and that add_arguments registers one action per field wrapper in one argument group titled `title`;
+  * FieldWrapper.default: the test that lets a default set from outside win (`self._default is not None`);
   * FieldWrapper.get_arg_options: the `help=` keyword chain (`self.help` / TEMPORARY_TOKEN / nothing) and `default=`;
   * help_formatter.py: TEMPORARY_TOKEN, SimpleHelpFormatter's base classes and its `_get_help_string`;
   * parsing.py: the default formatter class, that print_help runs `_preprocessing` first (and whether it applies the
@@ -11,7 +12,8 @@ Read from the repository:
 Read from the standard library of the interpreter under test (argparse.py): what the help action does, the exit
 status of `parser.exit()`, the stream of `print_help`, and which base class supplies `_get_help_string`.
 
-`option_order_preserved_gen` is NOT emitted here: it is a fact of Gen/FactsConflicts.v, which this file imports.
+`option_order_preserved_gen` is NOT emitted here: it is a fact of Gen/FactsConflicts.v, which this file imports; likewise
+DEFAULT_NEGATIVE_PREFIX (bool fields) comes from Gen/FactsBool.v.
 
 Output: coq/Gen/FactsHelp.v (imports Model.Help and instantiates it)."""
 from __future__ import annotations
@@ -288,6 +290,28 @@ def _parser(pt, std):
     return sets_up, applies_cfg, status, to_stdout
 
 
+def _ext_default_test(fwt):
+    """FieldWrapper.default starts with the test that lets a default set from outside (set_default) win; emitted as a
+    function of the falsiness of that (non-None) value"""
+    fn = find_def(fwt, "default", cls="FieldWrapper")
+    chains = [s for s in clean(fn.body) if isinstance(s, ast.If)]
+    if not chains:
+        raise Unrecognised("FieldWrapper.default: decision chain")
+    arms, _els = if_chain(chains[0])
+    test, body = arms[0]
+    if "default = self._default" not in [unparse(x) for x in body]:
+        raise Unrecognised("FieldWrapper.default: the first arm does not use self._default")
+    for t, _b2 in arms[1:]:
+        if "self._default" in unparse(t):
+            raise Unrecognised("FieldWrapper.default: self._default tested again further down")
+    t = unparse(test)
+    if t in ("self._default is not None", "self._default != None"):
+        return "true"
+    if t in ("self._default", "bool(self._default)"):
+        return "negb falsy"
+    raise Unrecognised(f"FieldWrapper.default: test on self._default is `{t}`")
+
+
 def _b(x):
     return "true" if x else "false"
 
@@ -301,14 +325,16 @@ def emit(repo: str) -> str:
     skip, cmd_default = _skip_test(dw)
     _add_arguments(dw)
     arg_help = _arg_help(fwt)
+    ext_wins = _ext_default_test(fwt)
     token, bases, adds, strips = _formatter(hf, std)
     sets_up, applies_cfg, status, to_stdout = _parser(pt, std)
     return (
-        "From SPV Require Import Base.Str Model.OptStr Model.Help Gen.FactsConflicts.\nOpen Scope string_scope.\n"
+        "From SPV Require Import Base.Str Model.OptStr Model.Help Gen.FactsConflicts Gen.FactsBool.\nOpen Scope string_scope.\n"
         f"Definition cmd_default_gen : bool := {_b(cmd_default)}.\n"
         f"Definition skip_gen (init cmd : bool) : bool := {skip}.\n"
         f"Definition TEMPORARY_TOKEN_gen : string := {cstr(token)}.\n"
         f"Definition arg_help_gen (help : string) (default : option string) : option string :=\n  {arg_help}.\n"
+        f"Definition ext_wins_gen (falsy : bool) : bool := {ext_wins}.\n"
         f"Definition formatter_bases_gen : list string := [{'; '.join(cstr(b) for b in bases)}].\n"
         f"Definition adds_default_gen : bool := {_b(adds)}.\n"
         f"Definition strips_token_gen : bool := {_b(strips)}.\n"
@@ -319,20 +345,20 @@ def emit(repo: str) -> str:
         "(* the model instantiated with the regenerated facts; `perm` is the hash-seed oracle *)\n"
         "Definition exposedb_gen := exposedb skip_gen cmd_default_gen.\n"
         "Definition ordered_opts_gen := ordered_opts option_order_preserved_gen.\n"
-        "Definition entry_of_gen := entry_of arg_help_gen TEMPORARY_TOKEN_gen adds_default_gen strips_token_gen option_order_preserved_gen.\n"
-        "Definition help_entries_gen := help_entries skip_gen cmd_default_gen arg_help_gen TEMPORARY_TOKEN_gen adds_default_gen strips_token_gen option_order_preserved_gen.\n"
+        "Definition entry_of_gen := entry_of arg_help_gen TEMPORARY_TOKEN_gen adds_default_gen strips_token_gen ext_wins_gen DEFAULT_NEGATIVE_PREFIX option_order_preserved_gen.\n"
+        "Definition help_entries_gen := help_entries skip_gen cmd_default_gen arg_help_gen TEMPORARY_TOKEN_gen adds_default_gen strips_token_gen ext_wins_gen DEFAULT_NEGATIVE_PREFIX option_order_preserved_gen.\n"
         "Definition resolver_gen (perm : list string -> list string) (c : cfg) (m : crmode) : list fw -> res (list fw) :=\n"
         "  resolve_gen (ordered_opts_gen perm c) m.\n"
         "Definition setup_gen (perm : list string -> list string) (c : cfg) (m : crmode) := setup skip_gen cmd_default_gen (resolver_gen perm c m).\n"
         "Definition api_defaults_gen := api_defaults print_help_applies_config_gen.\n"
         "(* the three observable behaviours on an already computed set-up outcome ... *)\n"
         "Definition cli_help_of_gen (perm : list string -> list string) :=\n"
-        "  cli_help_of skip_gen cmd_default_gen arg_help_gen TEMPORARY_TOKEN_gen adds_default_gen strips_token_gen option_order_preserved_gen perm\n"
+        "  cli_help_of skip_gen cmd_default_gen arg_help_gen TEMPORARY_TOKEN_gen adds_default_gen strips_token_gen ext_wins_gen DEFAULT_NEGATIVE_PREFIX option_order_preserved_gen perm\n"
         "              help_status_gen help_stdout_gen.\n"
         "Definition api_help_of_gen (perm : list string -> list string) :=\n"
-        "  api_help_of skip_gen cmd_default_gen arg_help_gen TEMPORARY_TOKEN_gen adds_default_gen strips_token_gen option_order_preserved_gen perm\n"
+        "  api_help_of skip_gen cmd_default_gen arg_help_gen TEMPORARY_TOKEN_gen adds_default_gen strips_token_gen ext_wins_gen DEFAULT_NEGATIVE_PREFIX option_order_preserved_gen perm\n"
         "              print_help_sets_up_gen print_help_applies_config_gen.\n"
-        "Definition parse_defaults_of_gen := parse_defaults_of skip_gen cmd_default_gen print_help_sets_up_gen print_help_applies_config_gen.\n"
+        "Definition parse_defaults_of_gen := parse_defaults_of skip_gen cmd_default_gen ext_wins_gen print_help_sets_up_gen print_help_applies_config_gen.\n"
         "(* ... and composed with set-up: parse_args([\"--help\"]), print_help(), a parse with an empty command line *)\n"
         "Definition run_cli_help_gen (perm : list string -> list string) (c : cfg) (m : crmode) (pre cfgf : dmap) (F : list hwrap) :=\n"
         "  cli_help_of_gen perm c pre cfgf (setup_gen perm c m F).\n"
